@@ -93,8 +93,26 @@ def op_cli_shift(t):
             d = parsers.DurationParser().parse(o)
             p = p - d if sign < 0 else p + d
         from metomi.isodatetime.dumpers import TimePointDumper
+        expected[0] = p
+        expected.append(fmt)
         return TimePointDumper().dump(p, fmt)
-    return "%s ; %s" % (out, lib(compute))
+    expected = [None]
+    libout = lib(compute)
+    # independent of the dumper: the printed text, read back, must denote the point the library computed
+    # (only when the notation carries the whole instant: a complete date, time to the second, a zone)
+    back = "NA"
+    if out.startswith("OUT ") and expected[0] is not None and len(expected) > 1 and _complete_date(expected[1] or ""):
+        try:
+            printed = dec(out[4:]).strip()
+            q = with_fake_time(0, 0, 0, 0, lambda: parsers.TimePointParser(assumed_time_zone=(0, 0) if utc else None).parse(printed))
+            e = expected[0]
+            # compare at the precision the notation prints: fields of the re-dumped expected point
+            ez = e if q.time_zone.unknown else e.to_time_zone(q.time_zone)
+            same_year = q.to_calendar_date().get_calendar_date() == ez.to_calendar_date().get_calendar_date()
+            back = "YEAROK" if same_year else "YEARBAD %d" % ez.to_calendar_date().get_calendar_date()[0]
+        except (ValueError, AttributeError, TypeError):
+            back = "NA"
+    return "%s ; %s ; %s" % (out, libout, back)
 
 
 def op_cli_diff(t):
@@ -143,6 +161,13 @@ def op_cli_rec(t):
         pts = impl.take(r, mx) if mx > 0 else []
         return "\n".join(p.strftime(fmt) if fmt and "%" in fmt else (__import__("metomi.isodatetime.dumpers", fromlist=["x"]).TimePointDumper().dump(p, fmt) if fmt else str(p)) for p in pts)
     return "%s ; %s" % (out, lib(compute))
+
+
+def _complete_date(fmt):
+    """the dump format spells a full year and a complete date (so the printed text determines the day)"""
+    import re
+    d = fmt.split("T")[0]
+    return "CCYY" in d and (("MM" in d and "DD" in d) or "DDD" in d or re.search(r"Www-?D", d) is not None)
 
 
 def _lib_shift(p, offs):
